@@ -421,7 +421,7 @@ def jobs(tier):
         js.append(Job("%s_%dto%d" % ("converter" if wr else ("down" if dwm > dws else "up"), dwm, dws), build_conv, dict(dwm=dwm, dws=dws, depth_s=d, K=K, wrapper=wr), cost=8))
     caches = [(4, 8, 8, 16), (4, 8, 16, 8)]
     if T:
-        caches += [(8, 8, 8, 32), (4, 16, 8, 16), (4, 8, 32, 4), (2, 8, 8, 8)]
+        caches += [(8, 8, 8, 32), (4, 16, 8, 16), (8, 8, 32, 4), (2, 8, 8, 8)]
     for (cs, dwm, dws, d) in caches:
         js.append(Job("cache%d_%dto%d" % (cs, dwm, dws), build_cache, dict(cachesize=cs, dwm=dwm, dws=dws, depth_s=d, K=(16 if T else 12)), cost=30, timeout_s=3400))
     js.append(Job("cache2_8to8_anyslave", build_cache, dict(cachesize=2, dwm=8, dws=8, depth_s=8, K=(14 if T else 12), anyslave=True), cost=40, timeout_s=3400))
